@@ -635,7 +635,69 @@ def local_order(body):
 
 
 # defect classes repaired in /repo (fix: commits): their programs are ordinary inputs now, no matcher covers them
-FIXED_FEATURES = {"F21", "F22", "F39", "F120", "F121", "F122", "F124", "F125"}
+# names whose first argument the decompiler takes for a list: a symbol there is printed as a global variable (gv_as_sym, F140)
+LIST_FUNCTIONS = ("findpos", "findposnear", "getaprop", "getone", "getpos", "getpropat", "getprop")
+LIST_FUNCTION_NAMES = ["findPos", "findPosNear", "getaProp", "getOne", "getPos", "getPropAt", "getProp"]
+# keys of ast.variable.KNOWN_PROPERTIES: movie / system properties that a script may also DECLARE as its own property (F139)
+KNOWN_PROPERTY_NAMES = ["actorList", "floatPrecision", "mouseDownScript", "mouseUpScript", "keyDownScript", "keyUpScript", "timeoutScript",
+                        "itemDelimiter", "movieName", "moviePath", "romanLingo", "cpuHogTicks", "traceLoad", "traceLogFile"]
+# legal Lingo identifiers that JavaScript reserves (F141): copied unchanged, `var var;` is a SyntaxError
+JS_RESERVED_IDS = ["var", "function", "class", "extends", "break", "const", "try", "catch", "switch", "case", "default", "typeof",
+                   "void", "this", "null", "super", "enum", "import", "finally", "throw", "instanceof", "debugger"]
+# reserved only in strict-mode code (class bodies: property scripts and factories); valid names in the functions of a plain script
+JS_STRICT_RESERVED_IDS = ["let", "static", "yield", "public", "private", "protected", "interface", "package", "implements"]
+
+
+def border_scripts(rng, tier):
+    """identifier pools at the border of the translators' correspondences: declared properties named like movie properties (read and
+    written), list functions with symbol / non-symbol first arguments, JavaScript's reserved words as Lingo identifiers"""
+    out = []
+    n = [0]
+    def num():
+        n[0] += 1
+        return n[0]
+    # declared properties named like movie / system properties, in property scripts and factories
+    for kind in ("props", "factory"):
+        for i in range(0, len(KNOWN_PROPERTY_NAMES), 3):
+            names = KNOWN_PROPERTY_NAMES[i:i + 3]
+            hs = []
+            for j, nm in enumerate(names):
+                body = [["set", ["r", nm], ["i", num()]], ["set", ["l", "x"], ["r", nm]], ["call", "put", ["b", "concat", ["r", nm], ["s", S("a")]]],
+                        ["set", ["r", nm], ["b", "add", ["r", nm], ["i", num()]]], ["if", ["b", "lt", ["r", nm], ["i", num()]], [["set", ["r", names[0]], ["r", nm]]], []]]
+                hs.append([("method" if kind == "factory" else "on"), ("mGet%d" % j if kind == "factory" else "h%d" % j), ["v"]] + body)
+            if kind == "factory":
+                hs = [["method", "mnew", [], ["set", ["r", names[0]], ["i", 0]]]] + hs
+            out.append(dict(tree=["script", ["factory", "makeIt" if kind == "factory" else "-"], ["props"] + names, ["globals"]] + hs, pre=[], kind="border-known-properties"))
+    # list functions: first argument a symbol (F140: printed as a global) or anything else (must be exact)
+    firsts = [["y", "foo"], ["y", "name"], ["l", "lst"], ["g", "gList"], ["p", "v"], ["li", ["i", 1], ["i", 2]], ["pl", ["y", "a"], ["i", 1]]]
+    seconds = [["y", "name"], ["i", 3], ["s", S("k")], ["l", "x"]]
+    for fn in LIST_FUNCTION_NAMES + (["GETONE", "getprop"] if tier != "quick" else []):
+        hs = []
+        for a in firsts:
+            for b in (seconds if tier != "quick" else seconds[:2]):
+                hs.append([["set", ["l", "x"], ["c", fn, a, b]]])
+                hs.append([["call", "put", ["c", fn, a, b], ["c", "count", ["l", "lst"]]]])
+        # a function that is NOT a list function keeps its symbol
+        hs.append([["set", ["l", "x"], ["c", "getAt", ["y", "foo"], ["i", 1]]], ["set", ["l", "x"], ["c", "count", ["y", "foo"]]]])
+        for i in range(0, len(hs), 8):
+            out.append(dict(tree=["script", ["factory", "-"], ["props"], ["globals", "gList"]] +
+                            [["on", "h%d" % j, ["v"]] + b for j, b in enumerate(hs[i:i + 8])], pre=[], kind="border-list-functions"))
+    # JavaScript's reserved words as local variables, parameters and handler names (plain scripts: every handler is a function)
+    words = (JS_RESERVED_IDS + JS_STRICT_RESERVED_IDS) if tier != "quick" else (JS_RESERVED_IDS[::3] + JS_STRICT_RESERVED_IDS[::3])
+    for w in words:
+        # the same words in a method of a property script (strict-mode code)
+        out.append(dict(tree=["script", ["factory", "-"], ["props", "pSpeed"], ["globals"],
+                              ["on", "h0", ["v"], ["set", ["l", w], ["r", "pSpeed"]], ["call", "put", ["l", w]]]], pre=[], kind="border-reserved-words"))
+        hs = [["on", "h0", ["v"], ["set", ["l", w], ["i", num()]], ["call", "put", ["b", "add", ["l", w], ["i", 1]]]],
+              ["on", "h1", [w], ["call", "put", ["p", w]]],
+              ["on", w, ["v"], ["call", "put", ["p", "v"]]],
+              ["on", "h3", ["v"], ["set", ["g", w], ["i", num()]], ["call", "put", ["y", w]], ["set", ["l", "x"], ["op", w, ["p", "v"]]]]]
+        for h in hs:          # one script per handler: an invalid function makes the whole text invalid
+            out.append(dict(tree=["script", ["factory", "-"], ["props"], ["globals"], h], pre=[], kind="border-reserved-words"))
+    return out
+
+
+FIXED_FEATURES = {"F21", "F22", "F39", "F120", "F121", "F122", "F124", "F125", "F139"}
 
 
 def features(h, script_globals=(), handler_names=()):
@@ -692,6 +754,8 @@ def features(h, script_globals=(), handler_names=()):
                 f.add("F22")
         if tag == "mov" and t[1] == "ancestor":
             f.add("F124")
+        if tag == "c" and len(t) >= 3 and t[1].lower() in LIST_FUNCTIONS and isinstance(t[2], list) and t[2][:1] == ["y"]:
+            f.add("F140")
         if tag == "c" and len(t) == 2 and t[1] not in handler_names:
             f.add("F125")
         if tag == "op" and (t[2] == "me" or (isinstance(t[2], list) and t[2][:1] in (["p"], ["l"], ["g"]) and t[2][1] == "me")):
